@@ -220,7 +220,8 @@ def peer_churn(tier, seed):
         if i < 0:
             raise c.Infra("churn run failed: %s" % p.stderr[-2000:])
         crash = p.stderr[i:i + 6000]
-        if "concurrent map" in crash and any(sx in crash for sx in sites):
+        # (race reports are interleaved with the runtime's goroutine dump: the listed sites are looked for in all of it)
+        if "concurrent map" in crash.splitlines()[0] and any(sx in p.stderr[i:] for sx in sites):
             explained += 1
         else:
             unexplained.append({"pair": "the process crashed: " + crash.splitlines()[0][:200], "text": crash})
